@@ -167,6 +167,25 @@ def solve_lp(
     if lp_data.bounds:
         linprog_kwargs["bounds"] = lp_data.bounds
 
+    # Problem.solve() documents x0, tol, maxiter and use_hessian for every
+    # problem; linprog knows none of them by these names.  The iteration limit
+    # and the tolerance become HiGHS options, a start point and Hessians have
+    # no meaning for an LP.
+    kwargs = dict(kwargs)
+    kwargs.pop("x0", None)
+    kwargs.pop("use_hessian", None)
+    tol = kwargs.pop("tol", None)
+    maxiter = kwargs.pop("maxiter", None)
+    if tol is not None or maxiter is not None:
+        options = dict(kwargs.get("options") or {})
+        if maxiter is not None:
+            options.setdefault("maxiter", int(maxiter))
+        if tol is not None:
+            highs_tol = max(float(tol), 1e-10)  # smallest value HiGHS accepts
+            options.setdefault("primal_feasibility_tolerance", highs_tol)
+            options.setdefault("dual_feasibility_tolerance", highs_tol)
+        kwargs["options"] = options
+
     # Merge user kwargs (allow overriding)
     linprog_kwargs.update(kwargs)
 
